@@ -426,6 +426,11 @@ func Run(p Prop, cfg Config) (*Output, error) {
 			cases, runs = cases[:i], runs[:i]
 			break
 		}
+		// a panic in a goroutine of the code under test kills this process: leave the case on disk
+		// so that ./check can report it as the failing input
+		if cb, err := json.Marshal(map[string]interface{}{"index": i, "ops": ops}); err == nil {
+			os.WriteFile(filepath.Join(cfg.OutDir, "current_case.json"), cb, 0o644)
+		}
 		runs[i] = runCase(p, ops)
 		for _, r := range runs[i].res {
 			if _, isKnown := known[r.Sig]; r.Fail != "" && !isKnown {
@@ -447,6 +452,7 @@ func Run(p Prop, cfg Config) (*Output, error) {
 		}
 	}
 	out.Cases = len(cases)
+	os.Remove(filepath.Join(cfg.OutDir, "current_case.json"))
 
 	// ops / impl files, for inspection and for `diff`
 	var opsF, implF bytes.Buffer
